@@ -48,7 +48,7 @@ func compareDatetime(ctx context.Context, val1, val2 any, useTZ bool) (int, erro
 
 // compareDate compares val1 to val1. Returns -2 if they're incomparable and
 // an error if a cast requires timezone useTZ is false.
-func compareDate(_ context.Context, val1 *types.Date, val2 any, useTZ bool) (int, error) {
+func compareDate(ctx context.Context, val1 *types.Date, val2 any, useTZ bool) (int, error) {
 	switch val2 := val2.(type) {
 	case *types.Date:
 		return val1.Compare(val2.Time), nil
@@ -58,7 +58,7 @@ func compareDate(_ context.Context, val1 *types.Date, val2 any, useTZ bool) (int
 		if !useTZ {
 			return 0, tzRequiredCast("date", "timestamptz")
 		}
-		return val1.Compare(val2.Time), nil
+		return val1.ToTimestampTZ(ctx).Compare(val2.Time), nil
 	case *types.Time, *types.TimeTZ:
 		// Incomparable types
 		return -2, nil
@@ -113,7 +113,7 @@ func compareTimeTZ(ctx context.Context, val1 *types.TimeTZ, val2 any, useTZ bool
 
 // compareTimestamp compares val1 to val1. Returns -2 if they're incomparable
 // and an error if a cast requires timezone useTZ is false.
-func compareTimestamp(_ context.Context, val1 *types.Timestamp, val2 any, useTZ bool) (int, error) {
+func compareTimestamp(ctx context.Context, val1 *types.Timestamp, val2 any, useTZ bool) (int, error) {
 	switch val2 := val2.(type) {
 	case *types.Date:
 		return val1.Compare(val2.Time), nil
@@ -123,7 +123,7 @@ func compareTimestamp(_ context.Context, val1 *types.Timestamp, val2 any, useTZ 
 		if !useTZ {
 			return 0, tzRequiredCast("timestamp", "timestamptz")
 		}
-		return val1.UTC().Compare(val2.Time), nil
+		return val1.ToTimestampTZ(ctx).Compare(val2.Time), nil
 	case *types.Time, *types.TimeTZ:
 		// Incomparable types
 		return -2, nil
@@ -134,18 +134,18 @@ func compareTimestamp(_ context.Context, val1 *types.Timestamp, val2 any, useTZ 
 
 // compareTimestampTZ compares val1 to val1. Returns -2 if they're
 // incomparable and an error if a cast requires timezone useTZ is false.
-func compareTimestampTZ(_ context.Context, val1 *types.TimestampTZ, val2 any, useTZ bool) (int, error) {
+func compareTimestampTZ(ctx context.Context, val1 *types.TimestampTZ, val2 any, useTZ bool) (int, error) {
 	switch val2 := val2.(type) {
 	case *types.Date:
 		if !useTZ {
 			return 0, tzRequiredCast("date", "timestamptz")
 		}
-		return val1.Compare(val2.UTC()), nil
+		return val1.Compare(val2.ToTimestampTZ(ctx).Time), nil
 	case *types.Timestamp:
 		if !useTZ {
 			return 0, tzRequiredCast("timestamp", "timestamptz")
 		}
-		return val1.Compare(val2.UTC()), nil
+		return val1.Compare(val2.ToTimestampTZ(ctx).Time), nil
 	case *types.TimestampTZ:
 		return val1.Compare(val2.Time), nil
 	case *types.Time, *types.TimeTZ:
